@@ -219,6 +219,39 @@ fn crc_from(alg: &str, t: &DTy, bytes: &[u8]) -> Option<Result<DVal, &'static st
     }
 }
 
+/// CRC-checked decoding through a hand-built stack `CrcModifier<IOReader>` (the modifier is generic over its inner
+/// flavour): `Deserializer::from_flavor`, `T::deserialize`, `finalize`. `scratch` bytes of scratch buffer.
+fn crc_from_reader(alg: &str, t: &DTy, bytes: &[u8], scratch: usize) -> Option<Result<DVal, &'static str>> {
+    use postcard::de_flavors::crc::CrcModifier;
+    use postcard::de_flavors::io::io::IOReader;
+    macro_rules! run { ($ty:ty, $a:expr) => {{
+        let k = crc::Crc::<$ty>::new(&$a);
+        let mut buf = vec![0u8; scratch];
+        let flav = CrcModifier::new(IOReader::new(bytes, &mut buf[..]), k.digest());
+        let mut de = postcard::Deserializer::from_flavor(flav);
+        let r = with_ty(t, || <DynVal as serde::Deserialize>::deserialize(&mut de));
+        Some(match r {
+            Err(e) => Err(err_name(&e)),
+            Ok(v) => match de.finalize() {
+                Ok(_) => Ok(v.0),
+                Err(e) => Err(err_name(&e)),
+            },
+        })
+    }}; }
+    match alg {
+        "CRC_8_SMBUS" => run!(u8, crc::CRC_8_SMBUS),
+        "CRC_12_UMTS" => run!(u16, crc::CRC_12_UMTS),
+        "CRC_16_XMODEM" => run!(u16, crc::CRC_16_XMODEM),
+        "CRC_16_IBM_SDLC" => run!(u16, crc::CRC_16_IBM_SDLC),
+        "CRC_32_ISO_HDLC" => run!(u32, crc::CRC_32_ISO_HDLC),
+        "CRC_32_BZIP2" => run!(u32, crc::CRC_32_BZIP2),
+        "CRC_64_XZ" => run!(u64, crc::CRC_64_XZ),
+        "CRC_64_ECMA_182" => run!(u64, crc::CRC_64_ECMA_182),
+        "CRC_82_DARC" => run!(u128, crc::CRC_82_DARC),
+        _ => None,
+    }
+}
+
 fn crc_raw(alg: &str, m: &[u8]) -> Option<Vec<u8>> {
     with_alg!(alg, k, W, k.checksum(m).to_le_bytes().to_vec())
 }
@@ -506,6 +539,26 @@ pub fn eval(ctx: &mut Ctx, op: &str, args: &[Sexp]) -> Option<String> {
                     s
                 }
             })
+        }
+        "crcio" => {
+            // crcio <alg> <scratch> <ty> <hex>: the deserialising CrcModifier over a BYTE READER (a stack built by
+            // hand). Whatever scratch is left for the checksum: a frame is accepted ONLY if the slice entry point
+            // accepts it with the same value ("never accepts a wrong one"). Oracle only; no model answer.
+            let alg = args.first()?.atom()?;
+            let scratch: usize = args.get(1)?.atom()?.parse().ok()?;
+            let t = DTy::from_sexp(args.get(2)?)?;
+            let bytes = unhex(args.get(3)?.atom()?)?;
+            let via_reader = match guard(|| crc_from_reader(alg, &t, &bytes, scratch)) {
+                Err(()) => return Some("FAIL panic in CrcModifier over a byte reader".into()),
+                Ok(r) => r?,
+            };
+            if let Ok(v) = &via_reader {
+                match crc_from(alg, &t, &bytes) {
+                    Some(Ok(v2)) if v2 == *v => {}
+                    other => ctx.oracle_fail(format!("CRC-checked decoding through a byte reader ACCEPTED {} (scratch {}) but the slice entry point says {:?}", hex(&bytes), scratch, other.map(|r| r.map(|v| v.to_string())))),
+                }
+            }
+            Some("ok".into())
         }
         "cobsspec" => {
             // the real encoder on a raw message through growable storage (compared with Spec.cobsEncode)
@@ -1078,6 +1131,23 @@ pub fn cobs_messages(r: &mut Rng, thorough: bool) -> Vec<Vec<u8>> {
 }
 
 pub fn gen_c06(r: &mut Rng, thorough: bool, out: &mut Vec<String>) {
+    // every frame also WITHOUT its sentinel (a caller that split the stream at the zero bytes), through both
+    // decoding twins: short single-block frames whose message ends in a zero byte included
+    for (t, v) in kind_corpus().into_iter().chain((0..if thorough { 4000 } else { 300 }).map(|i| small_val(r, i))) {
+        if has_zero_width_seq(&t) {
+            continue;
+        }
+        if let Ok(f) = postcard::to_allocvec_cobs(&v) {
+            if f.len() >= 2 && f.len() <= 300 {
+                out.push(format!("cobsde {} {}", t, hex(&f[..f.len() - 1])));
+            }
+        }
+    }
+    for t in ["bool", "(tuple u8 u8)", "(option u8)", "(tuple u8 (option u16))", "(seq u8)", "u16"] {
+        for f in ["x0101", "x020501", "x0201", "x03050701", "x020101", "x01", "x0102", "x0301ff01"] {
+            out.push(format!("cobsde {} {}", t, f));
+        }
+    }
     let ms = cobs_messages(r, thorough);
     for (i, m) in ms.iter().enumerate() {
         out.push(format!("cobsspec {}", hex(m)));
@@ -1370,6 +1440,31 @@ pub fn gen_c20(r: &mut Rng, thorough: bool, out: &mut Vec<String>) {
 }
 
 pub fn gen_c10(r: &mut Rng, thorough: bool, out: &mut Vec<String>) {
+    // the deserialising CrcModifier over a byte reader, with every amount of scratch from none to ample: valid
+    // frames, every checksum byte damaged, payload bits flipped
+    for (k, alg) in ["CRC_16_XMODEM", "CRC_32_ISO_HDLC", "CRC_64_XZ", "CRC_82_DARC", "CRC_12_UMTS", "CRC_8_SMBUS"].iter().enumerate() {
+        for (t, v) in [(DTy::Tuple(vec![DTy::U(16), DTy::Str]), DVal::Tuple(vec![DVal::U(16, 300), DVal::Str("hey".into())])), (DTy::U(32), DVal::U(32, 70000 + k as u128)), (DTy::Bytes, DVal::Bytes(vec![1, 2, 3, 4, 5]))] {
+            let frame = match crc_allocvec(alg, &v) {
+                Some(Ok(f)) => f,
+                _ => continue,
+            };
+            let plain = postcard::to_allocvec(&v).map(|b| b.len()).unwrap_or(0);
+            let width = frame.len() - plain;
+            let need = crate::ops_io::need(&v);
+            for scratch in [0usize, need, need + 1, need + width - 1, need + width, need + width + 8] {
+                out.push(format!("crcio {} {} {} {}", alg, scratch, t, hex(&frame)));
+                for b in 0..width {
+                    let mut c = frame.clone();
+                    c[plain + b] ^= 1 << (b % 8);
+                    out.push(format!("crcio {} {} {} {}", alg, scratch, t, hex(&c)));
+                }
+                let mut c = frame.clone();
+                let p = r.below(plain.max(1) as u64) as usize;
+                c[p] ^= 0x10;
+                out.push(format!("crcio {} {} {} {}", alg, scratch, t, hex(&c)));
+            }
+        }
+    }
     // the crc crate against the Rocksoft model
     let nraw = if thorough { 10_000 } else { 150 };
     for alg in ALGS {
